@@ -101,6 +101,11 @@ def kinds():
         h = MD6(256, b'key', 1); h.rounds = 2; return h
     K['MD6'] = (mk_md6, [('h(M1)', lambda o: o(M1)), ('h(empty)', lambda o: o(M0)), ('h(M1,bitlen=77)', lambda o: o(M1, bitlen=77)),
                          ('h(600 bytes)', lambda o: o(M3 + M3)), ('h(M1,bitlen=too-big)!', lambda o: o(M1, bitlen=4000))], None)
+    # the same class in its default configuration (unkeyed, fully hierarchical, default round count) and in sequential mode
+    K['MD6-default'] = (lambda: MD6(256), [('h(M1)', lambda o: o(M1)), ('h(600 bytes)', lambda o: o(M3 + M3)), ('h(empty)', lambda o: o(M0)), ('h(M2,bitlen=1111)', lambda o: o(M2, bitlen=1111))], None)
+    def mk_md6seq():
+        h = MD6(160, b'', 0); h.rounds = 3; return h
+    K['MD6-sequential'] = (mk_md6seq, [('h(M1)', lambda o: o(M1)), ('h(600 bytes)', lambda o: o(M3 + M3)), ('h(900 bytes)', lambda o: o(M3 + M3 + M3)), ('h(M1,bitlen=too-big)!', lambda o: o(M1, bitlen=4000))], None)
     bl = [('h(M1)', lambda o: o(M1)), ('h(empty)', lambda o: o(M0)), ('h(M2)', lambda o: o(M2)), ('h(M1,salt)', lambda o: o(M1, 0x1234567890abcdef)),
           ('h(M1,salt,bitlen=13)', lambda o: o(M1, 7, 13)), ('h(M1,bitlen=too-big)!', lambda o: o(M1, 0, 999)),
           ('initstate+update(block)', lambda o: (o.initstate(), o.update(bytes(o.blocksize // 8)), None)[2])]
@@ -238,14 +243,14 @@ def K():
     return _K[0]
 
 def kind_names():
-    return ['SHA1', 'SHA0', 'SHA2-256', 'SHA2-512/224', 'MD4', 'MD5', 'SHA3-256', 'Keccak', 'Keccak-200', 'MD6', 'Blake256', 'Blake512', 'Blake2b', 'Blake2s',
+    return ['SHA1', 'SHA0', 'SHA2-256', 'SHA2-512/224', 'MD4', 'MD5', 'SHA3-256', 'Keccak', 'Keccak-200', 'MD6', 'MD6-default', 'MD6-sequential', 'Blake256', 'Blake512', 'Blake2b', 'Blake2s',
             'Skein256', 'Skein512-mac-tree', 'HMAC-SHA256', 'HMAC-MD5-longkey', 'TLSH128', 'TLSH48-3', 'Nilsimsa', 'AES128', 'AES256', 'DES', 'TDEA', 'Serpent',
             'Threefish256', 'ECB-AES', 'CBC-AES', 'CBC-DES-X923', 'ECB-TDEA', 'ECB-AES-nopadding', 'CTR-AES', 'CTR-AES-wrapping-counter', 'CTS_ECB-AES', 'CTS_CBC-DES', 'Salsa20',
             'Chacha-128-12', 'crc (functions)', 'knapsack (functions)', 'AES-family (integer-equal keys)', 'Threefish-family', 'Skein-family (same No)',
             'Chacha/Salsa-family', 'Nilsimsa-family', 'TLSH-family', 'SHA-family', 'Keccak-family', 'Blake-family', 'MD6-family', 'HMAC-family (shared hash object)',
             'mode-family (shared cipher object)', 'caller-owned buffers']
 
-ALPHA = {'SHA1': 7, 'SHA0': 4, 'SHA2-256': 7, 'SHA2-512/224': 7, 'MD4': 7, 'MD5': 7, 'SHA3-256': 4, 'Keccak': 8, 'Keccak-200': 4, 'MD6': 5, 'Blake256': 7, 'Blake512': 5,
+ALPHA = {'SHA1': 7, 'SHA0': 4, 'SHA2-256': 7, 'SHA2-512/224': 7, 'MD4': 7, 'MD5': 7, 'SHA3-256': 4, 'Keccak': 8, 'Keccak-200': 4, 'MD6': 5, 'MD6-default': 4, 'MD6-sequential': 4, 'Blake256': 7, 'Blake512': 5,
          'Blake2b': 9, 'Blake2s': 9, 'Skein256': 5, 'Skein512-mac-tree': 4, 'HMAC-SHA256': 5, 'HMAC-MD5-longkey': 3, 'TLSH128': 9, 'TLSH48-3': 5, 'Nilsimsa': 6,
          'AES128': 5, 'AES256': 3, 'DES': 5, 'TDEA': 4, 'Serpent': 4, 'Threefish256': 5, 'ECB-AES': 7, 'CBC-AES': 7, 'CBC-DES-X923': 7, 'ECB-TDEA': 7,
          'ECB-AES-nopadding': 4, 'CTR-AES': 5, 'CTR-AES-wrapping-counter': 4, 'CTS_ECB-AES': 5, 'CTS_CBC-DES': 4, 'Salsa20': 7, 'Chacha-128-12': 5, 'crc (functions)': 9, 'knapsack (functions)': 5, 'AES-family (integer-equal keys)': 5, 'Threefish-family': 6, 'Skein-family (same No)': 5,
